@@ -24,7 +24,9 @@ theorem deser_clean (b : Bytes) : Clean (deser b) := by
   · rfl
   · split
     · rfl
-    · split <;> rfl
+    · split
+      · rfl
+      · split <;> rfl
 
 theorem guardErr_all (k : String) : guardErr true k = .valueError := rfl
 
